@@ -701,6 +701,10 @@ func (c *FnCtx) alloc(st *State, n int) *Term {
 	f := c.f
 	r := f.Add(st.alpha, f.Int(1))
 	st.alpha = f.Add(st.alpha, f.Int(int64(n)))
+	if _, ok := f.allocSeq[r.id]; !ok {
+		f.allocCtr++
+		f.allocSeq[r.id] = f.allocCtr
+	}
 	return r
 }
 
